@@ -280,3 +280,61 @@ def run(rep: Report, prog: Program, tier: str) -> None:
             rep.fail(mk_finding(prog, PROP, "C19-CLOSE", fi, fi.node, f"{name} does not map the closed latch to state 'closed' first", construct=f"{name} closed branch"))
     rep.analysed["event_fields"] = sorted(f"{c}.{a}" for c, a in event_fields)
     rep.analysed["owned_handles"] = sorted(f"{c}.{a}" for c, a in handles)
+
+    # ---------------- C19-STATES: once closed, the aggregated states are `closed` whatever the transports report, and nothing is emitted again
+    rep.rule("C19-STATES", "after close() the ICE / connection state computations latch on `closed` and stay silent", min_instances=40)
+    import itertools as _it
+    from types import SimpleNamespace as _NS
+
+    from engine.index import Unknown as _Unknown
+    from engine.peval import Evaluator as _Ev, Raised as _Raised
+    PCQ = "rtcpeerconnection.RTCPeerConnection"
+    ice_vals = ("new", "checking", "completed", "failed", "closed")
+    dtls_vals = ("new", "connecting", "connected", "closed", "failed")
+    for fn, field in (("__updateIceConnectionState", "__iceConnectionState"), ("__updateConnectionState", "__connectionState")):
+        fi_ = prog.func(f"{PCQ}.{fn}")
+        for ices in _it.chain(_it.combinations_with_replacement(ice_vals, 1), _it.combinations(ice_vals, 2)):
+            for dtls in (("closed",), ("failed",), ("connected", "closed")):
+                for before in ("connected" if "Connection" in fn and "Ice" not in fn else "completed", "closed"):
+                    emitted = []
+
+                    def hk(call, ev, emitted=emitted):
+                        nm = unparse(call.func)
+                        if nm == "self.emit":
+                            emitted.append(ev.ev(call.args[0]))
+                            return None
+                        if nm == "self.__log_debug":
+                            return None
+                        if nm == "map" and len(call.args) == 2 and isinstance(call.args[0], ast.Lambda):
+                            lam = call.args[0]
+                            out = []
+                            for x in ev.ev(call.args[1]):
+                                sub = _Ev(prog, ev.module, ev.cls, dict(ev.env), hk)
+                                sub.env[lam.args.args[0].arg] = x
+                                out.append(sub.ev(lam.body))
+                            return out
+                        if nm == "asyncio.ensure_future":
+                            emitted.append("<task started>")
+                            return None
+                        return NotImplemented
+                    me = _NS(**{"__isClosed": "closed-future", "__iceTransports": [_NS(state=s, iceGatherer=_NS(state="completed")) for s in ices],
+                               "__dtlsTransports": [_NS(state=s) for s in dtls], field: before, "__closeTask": None})
+                    ev5 = _Ev(prog, fi_.module, fi_.cls, {"self": me}, hk)
+                    try:
+                        ev5.exec_block(fi_.node.body)
+                    except (_Raised, _Unknown) as ex:
+                        raise AnalysisError(f"C19-STATES cannot evaluate {fn}: {ex}")
+                    got = getattr(me, field)
+                    label = f"{fn.strip('_')}: closed, ICE transports {list(ices)}, DTLS transports {list(dtls)}, previous state {before}"
+                    want_events = [] if before == "closed" else None
+                    if got == "closed" and (want_events is None or emitted == want_events) and "<task started>" not in emitted:
+                        rep.ok("C19-STATES", label, sample=f"state closed, events {emitted}")
+                    else:
+                        rep.fail(mk_finding(prog, PROP, "C19-STATES", fi_, fi_.node,
+                                            f"{label}: the state becomes {got!r} and {emitted or 'nothing'} is emitted; after close() it must stay `closed` with no further events",
+                                            construct=f"{fn.strip('_')} after close: {got}"))
+
+    # ---------------- C19-CHANNELS (shared with C13)
+    rep.rule("C19-CHANNELS", "every data channel is closed when the association is closed", min_instances=2)
+    from .common import close_all_channels_rule
+    close_all_channels_rule(rep, prog, PROP, "C19-CHANNELS")
